@@ -439,7 +439,16 @@ def misc_case(item):
                 (3, 3), bytearray(32), bytearray(256), [0x2f])),
             ("clienthello-suites-32768", lambda: M.ClientHello().create(
                 (3, 3), bytearray(32), bytearray(0), [0x2f] * 32768)),
-            ("finished-verify-data-2^24", None),
+            ("finished-verify-data-2^24-1", lambda: M.Finished(
+                (3, 3), 12).create(bytearray(2 ** 24 - 1))),
+            ("finished-verify-data-2^24", lambda: M.Finished(
+                (3, 3), 12).create(bytearray(2 ** 24))),
+            ("finished-verify-data-2^24+3", lambda: M.Finished(
+                (3, 3), 12).create(bytearray(2 ** 24 + 3))),
+            ("certstatus-ocsp-2^24-4", lambda: M.CertificateStatus().create(
+                1, bytearray(2 ** 24 - 4))),
+            ("certstatus-ocsp-2^24", lambda: M.CertificateStatus().create(
+                1, bytearray(2 ** 24))),
             ("nst-ticket-65536", lambda: M.NewSessionTicket().create(
                 1, 2, bytearray(1), bytearray(65536), [])),
             ("nst-nonce-256", lambda: M.NewSessionTicket().create(
@@ -468,6 +477,13 @@ def misc_case(item):
                 continue
             # it serialised: then parsing must give the same value back
             sigs.add((kind, "serialised", label))
+            if isinstance(obj, M.HandshakeMsg):
+                if int.from_bytes(data[1:4], "big") != len(data) - 4:
+                    fails.append({"class": kind, "case": label,
+                                  "why": "handshake header declares %d bytes "
+                                  "for a body of %d (length wrapped)" % (
+                                      int.from_bytes(data[1:4], "big"),
+                                      len(data) - 4)})
             try:
                 if isinstance(obj, X.TLSExtension):
                     back = X.TLSExtension().parse(Parser(bytearray(data)))
